@@ -71,15 +71,115 @@ impl Property for Prop {
         "C02"
     }
     fn rule(&self) -> &'static str {
-        "trains: key -> seeded (PDU length from the size lattice / ranges up to 65533 - label, content class, label case incl. substituted first fragment, frag id 0..=255, protocol type >= 0x0600, one of 16 buffer-size schedules: constant 13/14/20/100/4096/4097/4098/5000/70000, random mix with tiny buffers, payload-fits-but-CRC-does-not, land-on-PDU-end-then-tiny, descending ramp, ascending ramp, first buffer 1..8 bytes short of the complete packet followed by exact-fit end buffers; receiver storage == PDU length, 65535 / 65536 / 65537, multiples of 65536, or 70000). Every encap/encap_frag call and every decap call is an evaluation. A train is non-trivial when it was fragmented (>= 2 packets), completed, and the receiver delivered; fingerprint = (PDU length, schedule, label case, frag id, number of packets)."
+        "trains: key -> seeded (PDU length from the size lattice / ranges up to 65533 - label, content class, label case incl. substituted first fragment, frag id 0..=255, protocol type >= 0x0600, one of 16 buffer-size schedules: constant 13/14/20/100/4096/4097/4098/5000/70000, random mix with tiny buffers, payload-fits-but-CRC-does-not, land-on-PDU-end-then-tiny, descending ramp, ascending ramp, first buffer 1..8 bytes short of the complete packet followed by exact-fit end buffers; receiver storage == PDU length, 65535 / 65536 / 65537, multiples of 65536, or 70000). batch: the sender works ahead of the receiver: 2..4 PDUs of the same size, label and protocol type are fragmented one after the other from ONE buffer refilled in place (re-use on or off, same or consecutive fragment ids), then all packets are decapsulated in order. Every encap/encap_frag call and every decap call is an evaluation. A train is non-trivial when it was fragmented (>= 2 packets), completed, and the receiver delivered; fingerprint = (PDU length, schedule, label case, frag id, number of packets)."
     }
     fn gens(&self, cx: &Cx) -> Vec<Gen> {
-        vec![Gen { name: "trains", count: cx.n(30_000, 2_000_000), exhaustive: false }, Gen { name: "lengths", count: 65534, exhaustive: true }]
+        vec![Gen { name: "trains", count: cx.n(30_000, 2_000_000), exhaustive: false }, Gen { name: "lengths", count: 65534, exhaustive: true }, Gen { name: "batch", count: cx.n(4_000, 300_000), exhaustive: false }]
     }
     fn run_key(&self, cx: &Cx, gen: &str, key: u64, rep: &mut Report) {
         let replay_s = format!("gen={} key={} seed={} profile={}", gen, key, cx.seed, cx.profile);
         let replay = || replay_s.clone();
         let mut rng = Rng::derive(cx.seed, fnv(gen.as_bytes()), key);
+        if gen == "batch" {
+            // the sender works ahead of the receiver: 2..4 PDUs of the same size, label and type are fragmented one
+            // after the other from ONE buffer that is refilled in place, and only then are the packets decapsulated
+            use dvb_gse_rust::crc::DefaultCrc;
+            use dvb_gse_rust::gse_encap::{EncapMetadata, EncapStatus, Encapsulator};
+            let n_pdus = 2 + rng.below(3);
+            let plen = match rng.below(4) {
+                0 => rng.range(1, 40),
+                1 => rng.range(4090, 4200),
+                _ => rng.range(40, 1500),
+            };
+            let lk = rng.below(4);
+            let label = gen_label(&mut rng, [0usize, 2, 4, 1][lk]);
+            let ptype = gen_user_ptype(&mut rng);
+            let same_id = rng.chance(1, 2);
+            let id0 = rng.byte();
+            let mut enc = Encapsulator::new(DefaultCrc {});
+            let reuse = rng.chance(1, 2);
+            if !reuse {
+                enc.disable_re_use_label();
+            }
+            let mut pdu = vec![0u8; plen];
+            let mut copies: Vec<Vec<u8>> = Vec::new();
+            let mut pkts: Vec<(usize, bool, Vec<u8>)> = Vec::new();
+            for j in 0..n_pdus {
+                rng.fill(&mut pdu);
+                copies.push(pdu.clone());
+                let fid = if same_id { id0 } else { id0.wrapping_add(j as u8) };
+                let mut ctx = None;
+                for step in 0..400 {
+                    let bl = if step == 0 { 13 + rng.below(plen + 4) } else { 13 + rng.below(600) };
+                    let mut b = vec![0u8; bl];
+                    rep.eval();
+                    let r = match ctx {
+                        None => crate::mon::guard(|| enc.encap(&pdu, fid, EncapMetadata::new(ptype, label), &mut b)),
+                        Some(c) => crate::mon::guard(|| enc.encap_frag(&pdu, &c, &mut b)),
+                    };
+                    match r {
+                        Ok(Ok(EncapStatus::CompletedPkt(n))) if (n as usize) <= bl => {
+                            b.truncate(n as usize);
+                            pkts.push((j, true, b));
+                            ctx = None;
+                            break;
+                        }
+                        Ok(Ok(EncapStatus::FragmentedPkt(n, c))) if (n as usize) <= bl => {
+                            b.truncate(n as usize);
+                            pkts.push((j, false, b));
+                            ctx = Some(c);
+                        }
+                        Ok(Err(_)) => {}
+                        _ => {
+                            rep.count("batch.sender-misbehaved");
+                            return;
+                        }
+                    }
+                }
+                if ctx.is_some() {
+                    rep.count("batch.train-not-finished");
+                    return;
+                }
+            }
+            let mut dec = plain_dec(1 + rng.below(4), plen, 2, plen, MandTable::none());
+            let mut fragmented = 0;
+            let keep_delivered = rng.chance(1, 2);
+            let mut held: Vec<Box<[u8]>> = Vec::new();
+            for (j, last, p) in &pkts {
+                rep.eval();
+                let d = dec_guard(&mut dec, p);
+                match &d {
+                    Ok(Ok((DecapStatus::CompletedPkt(buf, m), c))) if *last => {
+                        if *c != p.len() || m.pdu_len() != plen || buf[..plen] != copies[*j][..] || m.label() != label || m.protocol_type() != ptype {
+                            rep.violation("C02", "batch:delivered-pdu-differs".into(), || format!("sender ahead of the receiver, PDU {} of {} ({}B, label {}, re-use {}): delivered {} bytes / label {} / type {:#06x}", j + 1, n_pdus, plen, label_str(&label), reuse, m.pdu_len(), label_str(&m.label()), m.protocol_type()), &replay);
+                            return;
+                        }
+                    }
+                    Ok(Ok((DecapStatus::FragmentedPkt(_), c))) if !*last && *c == p.len() => {
+                        fragmented += 1;
+                    }
+                    other => {
+                        rep.violation("C02", format!("batch:packet-not-accepted:{}", if *last { "final" } else { "fragment" }), || format!("sender ahead of the receiver ({} PDUs of {}B from one buffer refilled in place, label {}, re-use {}): packet of PDU {} ({} bytes, final {}) -> {}", n_pdus, plen, label_str(&label), reuse, j + 1, p.len(), last, dec_res_str(other)), &replay);
+                        return;
+                    }
+                }
+                if let Ok(Ok((DecapStatus::CompletedPkt(b, _), _))) = d {
+                    // the application keeps what it received and provisions a new buffer (so that consecutive PDUs do
+                    // not live at the same address on the receiving side), or hands the buffer straight back
+                    if keep_delivered {
+                        held.push(b);
+                        let _ = dec.provision_storage(vec![0u8; plen].into_boxed_slice());
+                    } else {
+                        let _ = dec.provision_storage(b);
+                    }
+                }
+            }
+            rep.count("batch.ok");
+            if fragmented > 0 {
+                rep.nontrivial(mix(0xBA7C, mix(key, plen as u64)));
+            }
+            return;
+        }
         let lat = size_lattice();
         let case = rng.below(6);
         // 0 6B, 1 3B, 2 bcast, 3 6B substituted, 4 3B substituted, 5 3B zero
